@@ -7,7 +7,7 @@ listed = subprocess.run([os.path.join(V, 'harness/target/release/verif'), 'list'
 built = {l.split()[0]: l.split()[1] for l in listed if l.strip()}
 
 TEXT = {
- 'C01': ("Seeded generated-input search: canonical values of 20 consensus types are compared byte for byte with an independent reference encoder and round-tripped; layout-aware byte mutants of valid encodings must either be rejected or re-encode to exactly the input (which implies full consumption, one encoding per value and rejection of every non-canonical form); the eight named rejection classes are constructed on purpose; repository vectors anchor the reference.", "4 C01"),
+ 'C01': ("Seeded generated-input search: canonical values of 20 consensus types are compared byte for byte with an independent reference encoder and round-tripped; layout-aware byte mutants of valid encodings must either be rejected or re-encode to exactly the input (which implies full consumption, one encoding per value and rejection of every non-canonical form); the eight named rejection classes are constructed on purpose; repository vectors anchor the reference; big values (long header fields, count ladders, every varint boundary enumerated), short-read / back-to-back decoding, library constructors.", "4 C01"),
  'C02': ("Seeded generated-input search with an independent SHA-256 and reference encoder: txid/wtxid/block hash equality on every generated shape plus every witness / non-witness single-field modification kind, each of which must leave / change the id; clear_witness checked for exactness and idempotence.", "4 C02"),
  'C03': ("Differential testing against an independent implementation of the three Elements sighash algorithms (anchored on the 20 pinned Elements Core vectors), on digests and exact signing messages, plus a metamorphic committed / not-committed table per (algorithm, hash type).", "4 C03"),
  'C04': ("Seeded generated-input search over balanced explicit transactions (asset mixes, confidential / explicit inputs, issuance pseudo-inputs, any non-empty marking, value magnitudes 1..2^60, blinder RNG from the tape); the oracle is the round trip the statement names: blind Ok, amount verification Ok, every marked output unblinds with the receiver key to the original secrets and the reported factors, which reproduce both commitments.", "4 C04"),
@@ -16,11 +16,11 @@ TEXT = {
  'C07': ("Generated well-formed PSETs over every optional field family round-trip through bytes and base64 (tap trees compared leaf by leaf, ELIP-100/102 accessors after a hop); raw key/value re-framings and byte mutants of valid encodings and of the repository vectors must either be rejected or satisfy the decode-encode fixpoint; duplicates, missing mandatory fields, count mismatches and invalid preimages must be rejected.", "4 C07"),
  'C08': ("Generated well-formed transactions through from_tx/extract_tx; generated PSETs against a field-by-field reference extraction; stateful histories of updater / signer / finalizer operations with the unique id compared after every step with the initial one and with the harness's unsigned-transaction id; complete enumeration of all 341 lock-time kind assignments against the BIP370 reference.", "4 C08"),
  'C09': ("Model-based testing over blinding histories: generated multi-party PSETs (1..4 parties, inter-party value flows, issuances), a tape-chosen permutation of the parties with a binary or base64 hop before every step, a second rotation of the same case; invariants after every step (scalar count) and at the end (scalars empty, fully blinded, amount verification, unblinding to the original secrets, stored exact-value / exact-asset proofs).", "4 C09"),
- 'C10': ("Robustness fuzzing through the harness's panic / abort / memory-fault / allocation guard: 30 consensus decoders on random, mutated-valid, length-bomb and repository inputs with accessors applied to everything that decodes; text and slice parsers on mutated valid and random inputs; fallible operations on structurally valid but semantically arbitrary arguments. The oracle is 'returns' - any panic outside the documented conditions, abort, segfault or out-of-proportion allocation is a violation.", "4 C10"),
+ 'C10': ("Robustness fuzzing through the harness's panic / abort / memory-fault / allocation guard: 30 consensus decoders on random, mutated-valid, length-bomb and repository inputs with accessors applied to everything that decodes; text and slice parsers on mutated valid and random inputs; fallible operations on structurally valid but semantically arbitrary arguments; framing-aware PSET mutations (declared counts, pair operators), instruction-level scripts and pegin / pegout shapes, length bombs judged against the bound the decoder's own caps imply, serde deserializers of 30 types on token-level mutated JSON / CBOR documents. The oracle is 'returns' - any panic outside the documented conditions, abort, segfault or out-of-proportion allocation is a violation.", "4 C10"),
  'C11': ("Generated inputs over outpoints, contract hashes, nonces and amount kinds; the three representations (TxIn, PSET input, extracted transaction) and the AssetId constructors are compared with the harness's own derivation; JSON contracts are re-rendered with permuted keys / whitespace and, for the plain subset, hashed independently.", "4 C11"),
- 'C12': ("Generated transactions and blocks with emphasised shapes; every size figure is compared with lengths of the independent reference encoding.", "4 C12"),
+ 'C12': ("Generated transactions and blocks with emphasised shapes; every size figure is compared with lengths of the independent reference encoding; big transactions / blocks with counts and lengths across every varint width.", "4 C12"),
  'C13': ("Model-based testing over operation histories: one shared SighashCache against a fresh cache per query (and against the C03 reference), with witness_mut updates and One-vs-All probes interleaved.", "4 C13"),
- 'C14': ("Model-based testing over merge families: an ancestor PSET and 2..4 descendants built from a table of 62 id-neutral addition slots whose content is a function of the case seed (same slot => identical data, different key index => disjoint keys, collisions excluded by a family registry); oracles: merge Ok, id kept, every raw key/value pair of either operand present, commutativity, equality over orders / rotations / groupings, UniqueIdMismatch for different ids, and the full table of xpub key-source relations in both orders.", "4 C14"),
+ 'C14': ("Model-based testing over merge families: an ancestor PSET and 2..4 descendants built from a table of 62 id-neutral addition slots whose content is a function of the case seed (same slot => identical data, different key index => disjoint keys, collisions excluded by a family registry); oracles: merge Ok, id kept, every raw key/value pair of either operand present, commutativity, equality over orders / rotations / groupings, refusal of different ids (14 kinds of identity change), no panic for operands without a computable id, and the full table of xpub key-source relations in both orders.", "4 C14"),
  'C15': ("Complete enumeration of all 197 tree shapes up to 7 leaves and of every depth sequence of length <= 5 over depths 0..5 (with leaf/hidden masks), plus random trees up to 40 leaves with duplicates, hidden nodes, mutated histories and depth-limit chains, and Huffman weight vectors; oracles: independent merkle root / tweak / output key (P + t*G via point addition), control-block bytes, verification positives and ten negative mutations per leaf, acceptance iff valid DFS sequence, optimal Huffman cost and monotonicity.", "4 C15"),
  'C16': ("Generated builder programs against an independent builder / decoder / script-number model, and complete enumeration of every script of length 0..45 x first byte x second byte (three tail variants) plus perturbed exact templates for all witness versions and program lengths, against byte-form template predicates and an address-derivation model with script and text round trips.", "4 C16"),
  'C17': ("Complete enumeration of every one- and two-character replacement (data part incl. version character and checksum, and the human-readable part) for representative addresses of every checksum variant and length class, each of which must fail to parse under Address::from_str and under all three networks; fresh addresses are sampled with random corruptions.", "4 C17"),
